@@ -5,6 +5,8 @@ import (
 	"flag"
 	"fmt"
 	"os"
+	"os/exec"
+	"strings"
 	"time"
 
 	"verif.local/sim/core"
@@ -29,6 +31,7 @@ func cmdReplay(args []string) {
 	fs := flag.NewFlagSet("replay", flag.ExitOnError)
 	file := fs.String("file", "", "")
 	verbose := fs.Bool("v", false, "")
+	asJSON := fs.Bool("json", false, "")
 	fs.Parse(args)
 	rf := readReplay(*file)
 	p := getProp(rf.Property)
@@ -56,6 +59,10 @@ func cmdReplay(args []string) {
 		b, _ := json.MarshalIndent(v, "", " ")
 		fmt.Println(string(b))
 	}
+	if *asJSON {
+		b, _ := json.Marshal(v)
+		fmt.Println("VJSON " + string(b))
+	}
 	if v.Class != rf.Class || v.Sig != rf.Sig {
 		fmt.Printf("DIFFERENT property=%s recorded class=%s sig=%s, now class=%s sig=%s: %s\n", rf.Property, rf.Class, rf.Sig, v.Class, v.Sig, v.Detail)
 		os.Exit(4)
@@ -73,17 +80,52 @@ func cmdShrink(args []string) {
 	out := fs.String("out", "", "")
 	maxExec := fs.Int("max", 600, "")
 	budget := fs.Duration("budget", 120*time.Second, "")
+	fresh := fs.Bool("fresh", false, "execute every candidate tape in a process of its own")
 	fs.Parse(args)
 	rf := readReplay(*file)
 	p := getProp(rf.Property)
 	deadline := time.Now().Add(*budget)
 	execs := 0
 	var last *core.Violation
+	// fresh mode: a tree that carries state from call to call (free lists,
+	// caches) makes executions in one process depend on each other - the
+	// shrinker would then accept reductions that only hold after its own earlier
+	// executions. Every candidate is judged by a replay in a new process instead.
+	freshTry := func(vals []uint64) *core.Violation {
+		tmp := *out + ".try"
+		c := rf
+		c.Tape = vals
+		writeJSON(tmp, c)
+		defer os.Remove(tmp)
+		cmd := exec.Command(selfExe(), "replay", "-json", "-file", tmp)
+		cmd.Env = os.Environ()
+		b, _ := cmd.Output()
+		if cmd.ProcessState == nil || cmd.ProcessState.ExitCode() != 1 {
+			return nil
+		}
+		for _, line := range strings.Split(string(b), "\n") {
+			if strings.HasPrefix(line, "VJSON ") {
+				var v core.Violation
+				if json.Unmarshal([]byte(line[6:]), &v) == nil {
+					return &v
+				}
+			}
+		}
+		return nil
+	}
 	try := func(vals []uint64) bool {
 		if execs >= *maxExec || time.Now().After(deadline) {
 			return false
 		}
 		execs++
+		if *fresh {
+			v := freshTry(vals)
+			if v == nil || v.Class != rf.Class || v.Sig != rf.Sig {
+				return false
+			}
+			last = v
+			return true
+		}
 		st := core.NewStats()
 		st.SampleWant = 0
 		v, herr := executeRun(p, tape.Replay(vals), st)
@@ -175,6 +217,9 @@ func cmdShrink(args []string) {
 	}
 	// final execution to take detail and rendering from the minimal tape
 	try2 := func() {
+		if *fresh {
+			return
+		}
 		st := core.NewStats()
 		st.SampleWant = 0
 		if v, herr := executeRun(p, tape.Replay(cur), st); herr == "" && v != nil && v.Class == rf.Class && v.Sig == rf.Sig {
